@@ -1,5 +1,5 @@
 (* Proofs about reports (C09, C20). *)
-From Spok Require Import Base Graph RunCache RunCacheProofs RunCacheInst App.
+From Spok Require Import Base Graph GraphProofs RunCache RunCacheProofs RunCacheInst App.
 From Coq Require Import Permutation Sorted.
 Open Scope nat_scope.
 
@@ -249,4 +249,82 @@ Proof.
     exists (map tr_name (map (mk_res defs) rs0)). split; [reflexivity|]. split.
     + intros r Hr Sk. apply in_map_iff in Hr. destruct Hr as (r1 & <- & _). unfold mk_res in *. cbn [tr_skipped tr_cmds] in *. rewrite Sk. reflexivity.
     + apply forallb_res_ok. exact Rp.
+Qed.
+
+(* ---- C01 for a whole invocation: selection (Graph) + cache protocol (RunCache) + reporting (App) composed ---- *)
+Definition Inv_i := Inv DI None digest_i.
+Definition uptodate_i := uptodate DI digest_i.
+
+Lemma find_def_name defs n d : find_def defs n = Some d -> td_name d = n.
+Proof. unfold find_def. intros H. apply find_some in H. destruct H as [_ H]. apply Nat.eqb_eq in H. exact H. Qed.
+
+Lemma otasks_names defs order :
+  map tname (flat_map (fun n => match find_def defs n with Some d => [to_task d] | None => [] end) order)
+  = filter (fun n => match find_def defs n with Some _ => true | None => false end) order.
+Proof.
+  induction order as [|n r IH]; cbn [flat_map filter map]; [reflexivity|].
+  destruct (find_def defs n) as [d|] eqn:E; cbn [app map]; [|exact IH].
+  rewrite IH. unfold to_task. cbn [tname]. rewrite (find_def_name _ _ _ E). reflexivity.
+Qed.
+
+Lemma NoDup_filter_nat (f : nat -> bool) l : NoDup l -> NoDup (filter f l).
+Proof.
+  induction 1 as [|x l Hx ND IH]; cbn [filter]; [constructor|]. destruct (f x); [|exact IH].
+  constructor; [|exact IH]. intros H. apply filter_In in H. destruct H as [H _]. exact (Hx H).
+Qed.
+
+(* every invocation keeps the cache invariant: what the cache file says about a task was true when it was written *)
+Theorem invoke_keeps_invariant pick defs vars s f req s' ob : Inv_i s -> invoke pick defs vars s f req = (s', ob) -> Inv_i s'.
+Proof.
+  intros HI. unfold invoke.
+  assert (R : forall req0 x, run_req pick defs s f req0 = x -> Inv_i (fst x)).
+  { intros req0 x <-. unfold run_req. destruct (run_order pick _ req0) as [order|e]; [|exact HI].
+    match goal with |- context [run_i _ _ _ ?o] => set (otasks := o) end.
+    assert (X : Inv_i (apply_op_i s (RunOp (f_force f) (beh_of defs) otasks))) by (apply (apply_op_inv DI deqb_i None digest_i deqb_i_spec); exact HI).
+    destruct (rr_out DI (run_i (f_force f) (beh_of defs) s otasks)); exact X. }
+  destruct (f_quiet f && f_debug f); [intros H; inversion H; subst; exact HI|].
+  destruct (f_vars f); [intros H; inversion H; subst; exact HI|].
+  destruct (f_clean f).
+  { destruct (has_task defs clean_name); intros H; [exact (R _ _ H)|].
+    assert (E : s' = apply_op_i s RemoveCache) by (inversion H; reflexivity). rewrite E.
+    apply (apply_op_inv DI deqb_i None digest_i deqb_i_spec). exact HI. }
+  destruct (f_show f); [intros H; inversion H; subst; exact HI|].
+  destruct req as [|r0 req].
+  - destruct (has_task defs default_name); intros H; [exact (R _ _ H)|inversion H; subst; exact HI].
+  - intros H. exact (R _ _ H).
+Qed.
+
+(* C01 at the command line: whatever the flags and however the tasks were selected, a task that an invocation reports as
+   skipped has - in the state the invocation leaves - exactly the inputs of its last successful completion *)
+Theorem invocation_skip_sound pick defs vars s f req s' ob rs r :
+  (forall k l, Permutation (pick k l) l) -> Inv_i s ->
+  invoke pick defs vars s f req = (s', ob) -> ob_stdout ob = SDJson rs -> In r rs -> tr_skipped r = true ->
+  exists d F, find_def defs (tr_name r) = Some d /\
+              inputs_of (files DI s') (to_task d) = Some F /\ last_ok DI s' (tr_name r) = Some F.
+Proof.
+  intros Hpick HI H HS Hr Hsk.
+  assert (R : forall req0, run_req pick defs s f req0 = (s', ob) -> exists d F, find_def defs (tr_name r) = Some d /\
+              inputs_of (files DI s') (to_task d) = Some F /\ last_ok DI s' (tr_name r) = Some F).
+  { clear H. intros req0. unfold run_req. destruct (run_order pick _ req0) as [order|e] eqn:Eo; [|intros X; inversion X; subst; discriminate].
+    match goal with |- context [run_i _ _ _ ?o] => set (otasks := o) end.
+    destruct (rr_out DI (run_i (f_force f) (beh_of defs) s otasks)) as [rs0|e] eqn:Er; [|intros X; inversion X; subst; discriminate].
+    intros X. inversion X; subst s' ob. clear X.
+    assert (Ers : rs = map (mk_res defs) rs0).
+    { unfold run_tasks_obs in HS. destruct (report (map (mk_res defs) rs0)) as [ms [[[t c] s0]|]]; cbn [ob_stdout] in HS.
+      - destruct (visible f); discriminate.
+      - destruct (f_json f); [inversion HS; reflexivity|destruct (visible f); discriminate]. }
+    subst rs. apply in_map_iff in Hr. destruct Hr as (r0 & <- & Hr0). cbn [mk_res tr_skipped tr_name] in *.
+    pose proof (run_results_names DI deqb_i None digest_i (f_force f) (beh_of defs) s otasks rs0 Er) as Nn.
+    assert (Hn : In (r_task r0) (map tname otasks)) by (rewrite <- Nn; apply in_map; exact Hr0).
+    apply in_map_iff in Hn. destruct Hn as (t & Et & Ht).
+    assert (ND : NoDup (map tname otasks)).
+    { unfold otasks. rewrite otasks_names. apply NoDup_filter_nat.
+      destruct (run_order_sound pick Hpick _ _ _ Eo) as (ND & _). exact ND. }
+    assert (Hs : In (skipped_res t) rs0) by (unfold skipped_res; rewrite Et; destruct r0 as [n sk]; cbn in *; subst sk; exact Hr0).
+    destruct (skip_sound DI deqb_i None digest_i deqb_i_spec digest_i_ne (f_force f) (beh_of defs) s otasks HI ND rs0 Er t Ht Hs) as (F & F' & A & B & C).
+    apply digest_i_inj in C. subst F'.
+    unfold otasks in Ht. apply in_flat_map in Ht. destruct Ht as (n & _ & Ht). destruct (find_def defs n) as [d|] eqn:Ed; [|destruct Ht].
+    destruct Ht as [<-|[]]. pose proof Et as Et0. cbn [to_task tname] in Et. rewrite (find_def_name _ _ _ Ed) in Et. subst n.
+    exists d, F. split; [exact Ed|]. split; [exact A|]. rewrite <- Et0. exact B. }
+  destruct (invoke_cases _ _ _ _ _ _ _ _ H) as [(_ & N)|(req' & X)]; [exfalso; exact (N rs HS)|exact (R req' X)].
 Qed.
